@@ -124,6 +124,10 @@ def classify(S, err, v):
     sp = [str(x) for x in err.absolute_schema_path if not str(x).isdigit()]
     if "propertyNames" in sp:
         return "propertyNames-non-string-key-schema/" + sp[-1]
+    if err.validator == "additionalProperties" and isinstance(err.instance, dict):
+        extra = set(err.instance) - set((err.schema or {}).get("properties", {}))
+        if extra and extra <= init_false_names(S.T):
+            return "init-false-field-not-in-schema"
     if S.all_refs and ambiguous_names(S.T):
         return "shared-definition-name/" + ",".join(sorted(ambiguous_names(S.T)))
     if sp[-1:] == ["enum"] and isinstance(err.instance, int) and not isinstance(err.instance, bool):
@@ -176,6 +180,14 @@ def ambiguous_names(T):
         if ti.kind == "dataclass":
             by.setdefault(ti.type.__name__, set()).add((ti.type, ti.args))
     return [n for n, s in by.items() if len(s) > 1]
+
+
+def init_false_names(T):
+    out = set()
+    for ti in _walk_types(T, set()):
+        if ti.kind == "dataclass":
+            out.update(f.name for f in dataclasses.fields(ti.type) if not f.init)
+    return out
 
 
 def flag_types(T):
